@@ -234,4 +234,3 @@ func run(c *vf.Ctx) {
 	return
 	racePass(c)
 }
-
